@@ -23,13 +23,16 @@
 (***************************************************************************)
 EXTENDS Extend, TLC
 
-CONSTANTS T, MaxDist, Lvs, Bias, Seeded, TSet, MaxCalls, Worlds, Problems, Region,
+CONSTANTS T, MaxDist, Lvs, Bias, Seeded, TSet, MaxCalls, WorldPairs, Problems, SetupChoices, Region,
           ValidateRoots, RestoreRng, SetupUsesPlannerRng, TakeAfterChecks
 
-VARIABLES valid, probs, pd, trees, acc, pc, now, deadline, rng, src, thr, res, route, ncalls, hist
+VARIABLES worlds, vc, probs, pd, trees, acc, pc, now, deadline, rng, src, thr, res, route, ncalls, hist
 
-vars == <<valid, probs, pd, trees, acc, pc, now, deadline, rng, src, thr, res, route, ncalls, hist>>
-view == <<valid, probs, pd, trees, acc, pc, now, deadline, rng, src, thr, res, route, ncalls>>
+vars == <<worlds, vc, probs, pd, trees, acc, pc, now, deadline, rng, src, thr, res, route, ncalls, hist>>
+view == <<worlds, vc, probs, pd, trees, acc, pc, now, deadline, rng, src, thr, res, route, ncalls>>
+
+\* what the installed checker accepts (setup installs a problem definition AND a checker)
+valid == worlds[IF vc = 0 THEN 1 ELSE vc]
 
 None == [kind |-> "none", path |-> <<>>]
 Ret(k) == [kind |-> k, path |-> <<>>]
@@ -37,7 +40,7 @@ Node(s, p) == [s |-> s, p |-> p, c |-> 0]
 Kinds == CASE Bias = "0" -> {"u"} [] Bias = "1" -> {"g"} [] OTHER -> {"g", "u"}
 
 Init ==
-  /\ valid \in Worlds /\ probs \in Problems
+  /\ worlds \in WorldPairs /\ vc = 0 /\ probs \in Problems
   /\ pd = 0 /\ trees = <<<<>>, <<>>>> /\ acc = {} /\ pc = "idle"
   /\ now = 0 /\ deadline = 0
   /\ rng = IF Seeded THEN "seeded" ELSE "none"
@@ -45,16 +48,17 @@ Init ==
   /\ res = None /\ route = "-" /\ ncalls = 0 /\ hist = <<>>
 
 \* setup: both trees cleared, start pushed, ONE goal sample pushed as the goal root
-Setup(i, g) ==
+Setup(i, k, g) ==
   /\ pc = "idle" /\ ncalls < MaxCalls
+  /\ <<i, k>> \in SetupChoices
   /\ g \in probs[i].goal
-  /\ pd' = i
+  /\ pd' = i /\ vc' = k
   /\ trees' = <<<<Node(probs[i].start, 0)>>, <<Node(g, 0)>>>>
   /\ acc' = {} /\ res' = None /\ route' = "-"
   /\ thr' = (thr \/ ~SetupUsesPlannerRng)       \* a draw from the thread generator happened
   /\ ncalls' = ncalls + 1
-  /\ hist' = Append(hist, [c |-> "setup", i |-> i, g |-> g])
-  /\ UNCHANGED <<valid, probs, pc, now, deadline, rng, src>>
+  /\ hist' = Append(hist, [c |-> "setup", i |-> i, v |-> k, g |-> g])
+  /\ UNCHANGED <<worlds, probs, pc, now, deadline, rng, src>>
 
 SolveBegin(t) ==
   /\ pc = "idle" /\ ncalls < MaxCalls
@@ -65,18 +69,18 @@ SolveBegin(t) ==
        THEN /\ res' = Ret("uninit")
             \* pinned code: the generator has already been taken (and is lost) at this point
             /\ rng' = IF ~TakeAfterChecks /\ rng = "seeded" /\ ~RestoreRng THEN "taken" ELSE rng
-            /\ UNCHANGED <<valid, probs, pd, trees, acc, pc, now, deadline, src, thr>>
+            /\ UNCHANGED <<worlds, vc, probs, pd, trees, acc, pc, now, deadline, src, thr>>
      ELSE IF ValidateRoots /\ probs[pd].start \notin valid
        THEN /\ res' = Ret("invalidstart")
-            /\ UNCHANGED <<valid, probs, pd, trees, acc, pc, now, deadline, rng, src, thr>>
+            /\ UNCHANGED <<worlds, vc, probs, pd, trees, acc, pc, now, deadline, rng, src, thr>>
      ELSE IF ValidateRoots /\ trees[2][1].s \notin valid
        THEN /\ res' = Ret("nosolution")
-            /\ UNCHANGED <<valid, probs, pd, trees, acc, pc, now, deadline, rng, src, thr>>
+            /\ UNCHANGED <<worlds, vc, probs, pd, trees, acc, pc, now, deadline, rng, src, thr>>
      ELSE /\ res' = None /\ pc' = "loop" /\ now' = 0 /\ deadline' = t
           /\ src' = IF rng = "seeded" THEN "seeded" ELSE "os"
           /\ rng' = IF rng = "seeded" THEN "taken" ELSE rng
           /\ acc' = IF ValidateRoots THEN acc \cup {probs[pd].start, trees[2][1].s} ELSE acc
-          /\ UNCHANGED <<valid, probs, pd, trees, thr>>
+          /\ UNCHANGED <<worlds, vc, probs, pd, trees, thr>>
 
 Finish(r) ==
   /\ res' = r /\ pc' = "idle"
@@ -86,7 +90,7 @@ TimeoutReturn ==
   /\ pc = "loop" /\ now > deadline
   /\ Finish(Ret("timeout"))
   /\ hist' = hist
-  /\ UNCHANGED <<valid, probs, pd, trees, acc, now, deadline, src, thr, route, ncalls>>
+  /\ UNCHANGED <<worlds, vc, probs, pd, trees, acc, now, deadline, src, thr, route, ncalls>>
 
 \* one extend(tree, target): [added, tree', acc', reached, idx]
 ExtendOp(tr, target, near, a0) ==
@@ -137,10 +141,10 @@ Iterate(kind, q, a, nearA, nearB) ==
                                   /\ Finish([kind |-> "ok",
                                              path |-> JoinPath(ts, Len(ts[1]), Len(ts[2]))])
                              ELSE UNCHANGED <<res, pc, rng, route>>
-  /\ UNCHANGED <<valid, probs, pd, deadline, src, thr, ncalls>>
+  /\ UNCHANGED <<worlds, vc, probs, pd, deadline, src, thr, ncalls>>
 
 Next ==
-  \/ \E i \in 1 .. 2 : \E g \in Pts(T) : Setup(i, g)
+  \/ \E i \in 1 .. 2, k \in 1 .. 2 : \E g \in Pts(T) : Setup(i, k, g)
   \/ \E t \in TSet : SolveBegin(t)
   \/ TimeoutReturn
   \/ \E kind \in {"g", "u"}, q \in Pts(T), a \in 1 .. 2 :
